@@ -13,6 +13,7 @@ import itertools
 from typing import Any, List
 
 from mc import codec, wiretable
+from mc.report import guard_harness as _guard
 from mc.report import add_sample, add_violation, count, new_part
 
 LEVEL = "exploration"
@@ -45,6 +46,7 @@ def check_one(flav: str, mn: str, lv, app_id: int, version, part) -> bool:
         instr = codec.make_instr(cls, kinds, lv)
         raw = bytes(Subroutine(instructions=[instr], app_id=app_id, netqasm_version=tuple(version)))
     except Exception as exc:
+        _guard(exc)
         add_violation(part, f"encode-raises/{flav}/{mn}", f"building/encoding {mn} with the published operand list raised "
                       f"{type(exc).__name__}: {exc}", case)
         return False
@@ -68,6 +70,7 @@ def check_one(flav: str, mn: str, lv, app_id: int, version, part) -> bool:
                           case, {"bytes": expected, "got": [str(i) for i in dec.instructions], "app_id": dec.app_id})
             ok = False
     except Exception as exc:
+        _guard(exc)
         add_violation(part, f"decode-published/{flav}/{mn}", f"{flav} {mn}: decoding published-layout bytes raised "
                       f"{type(exc).__name__}: {exc}", case, {"bytes": expected})
         ok = False
@@ -139,6 +142,7 @@ def shard_coexist(shard):
                 try:
                     dec = deserialize(raw, inst).instructions[0]
                 except Exception as exc:
+                    _guard(exc)
                     add_violation(part, f"coexist-decode-raises/{name}", f"{type(exc).__name__}: {exc}", case)
                     continue
                 cls = inst.name_map.get(mn)
@@ -258,6 +262,7 @@ def run_history(flav: str, ops, part, reps=None) -> None:
                 sub.instantiate(3, {})
         raw = bytes(sub)
     except Exception as exc:
+        _guard(exc)
         add_violation(part, f"history-raises/{flav}", f"{type(exc).__name__}: {exc}", case)
         return
     want = codec.ref_header((1, 2), app) + b"".join(body)
